@@ -21,6 +21,10 @@ mutators, parameter assignments and evaluations, and about ANY semantics `sem` o
 * `two_instance_noninterference`, `never_stale_pair`, `never_stale_pair_source`
                         two live instances, any interleaving of operations addressed to either: with one flag store per
                         canary object nothing done to one instance changes an observation of the other;
+* `alias_method_eq_primary`, `alias_direct_own_guard_eq_primary`, `arun_lower`, `never_stale_aliases`, `never_stale_aliases_source`
+                        secondary entry points (`ode_T`, `jacobian_T`, ..., `total_transition`): an alias evaluates the SAME
+                        compiled object behind the SAME flag, so an alias observation equals the primary one in every state;
+                        `alias_wrong_guard_counterexample`: a fast path behind another evaluator's flag goes stale.
 * `shared_store_stale_counterexample`  with ONE store shared by all canaries (class-level dict updated in place) the
                         other instance's compile marks a just-modified model's evaluator up to date.
 -/
@@ -239,6 +243,94 @@ theorem shared_store_stale_counterexample :
 theorem per_instance_store_fresh :
     psummary (prun Cfg.simulate false (pinit Cfg.simulate d1 [1] d1 [1]) sharedOps) = [(.A, 0, 0), (.B, 0, 0), (.A, 1, 1)] := by
   decide
+
+/-! ### secondary entry points (aliases) -/
+
+/-- **an alias observation equals the primary observation, in every state** (alias written as in the source:
+`return self.<target>(state, t)`): same successor state, same snapshot called, same "recompiled". -/
+theorem alias_method_eq_primary (cfg : Cfg) (impl : Alias → AliasImpl) (s : CState) (a : Alias) (x : List Rat) (t : Rat)
+    (h : impl a = .method) :
+    astep cfg impl s (.alias a x t) = step cfg s (.evaluate a.target x t) := by
+  simp only [astep, step, aliasStep, h]
+
+/-- the same for a fast path guarded by the target's OWN flag: when `<target>Compiled` exists and the target's flag is
+down, `add_func`'s closure would have called that very object -/
+theorem alias_direct_own_guard_eq_primary (cfg : Cfg) (impl : Alias → AliasImpl) (s : CState) (a : Alias) (x : List Rat)
+    (t : Rat) (h : impl a = .direct a.target) :
+    astep cfg impl s (.alias a x t) = step cfg s (.evaluate a.target x t) := by
+  simp only [astep, step, aliasStep, h]
+  unfold evalStep
+  cases hs : s.snap a.target with
+  | none => simp
+  | some sn => cases hf : s.flag a.target <;> simp
+
+/-- an alias implementation that cannot go stale: through the method, or directly behind the target's own flag -/
+def AliasOk (impl : Alias → AliasImpl) : Prop := ∀ a, impl a = .method ∨ impl a = .direct a.target
+
+theorem astep_lower (cfg : Cfg) (impl : Alias → AliasImpl) (hi : AliasOk impl) (s : CState) (op : AOp) :
+    astep cfg impl s op = step cfg s op.lower := by
+  cases op with
+  | op o => rfl
+  | alias a x t =>
+    rcases hi a with h | h
+    · exact alias_method_eq_primary cfg impl s a x t h
+    · exact alias_direct_own_guard_eq_primary cfg impl s a x t h
+
+/-- a history with aliases observes exactly what the history with every alias replaced by its target observes -/
+theorem arun_lower (cfg : Cfg) (impl : Alias → AliasImpl) (hi : AliasOk impl) (ops : List AOp) (s : CState) :
+    arun cfg impl s ops = run cfg s (ops.map AOp.lower) := by
+  induction ops generalizing s with
+  | nil => rfl
+  | cons op ops ih =>
+    simp only [arun, List.map_cons, run, astep_lower cfg impl hi s op]
+    cases (step cfg s op.lower).2 <;> simp [ih]
+
+/-- **C08 through the secondary entry points.**  For a `Good` variant that watches every evaluator and aliases that go
+through the method (or a fast path behind their own flag): in every history of mutators, parameter assignments,
+evaluations AND alias calls, every observation - primary or alias - is what a freshly constructed model returns. -/
+theorem never_stale_aliases {V} (cfg : Cfg) (hg : Good cfg) (hw : ∀ e, cfg.watched e = true) (impl : Alias → AliasImpl)
+    (hi : AliasOk impl) (sem : Sem V) (d0 : ModelDef) (pv0 : List Rat) (ops : List AOp) :
+    ∀ o ∈ arun cfg impl (cinit cfg d0 pv0) ops, o.value sem = freshValue cfg sem o.cur o.pvals o.ev o.x o.t := by
+  rw [arun_lower cfg impl hi]
+  refine never_stale cfg hg sem d0 pv0 _ ?_
+  generalize ops.map AOp.lower = l
+  induction l with
+  | nil => trivial
+  | cons op l ih =>
+    cases op with
+    | mutate m => exact ih
+    | setParams v => exact ih
+    | evaluate e x t => exact ⟨hw e, ih⟩
+
+/-- the source as modelled: aliases through the method -/
+theorem source_alias_ok : AliasOk sourceAliasImpl := fun _ => Or.inl rfl
+
+theorem never_stale_aliases_source {V} (sem : Sem V) (d0 : ModelDef) (pv0 : List Rat) (ops : List AOp) :
+    ∀ o ∈ arun sourceCfg sourceAliasImpl (cinit sourceCfg d0 pv0) ops,
+      o.value sem = freshValue sourceCfg sem o.cur o.pvals o.ev o.x o.t :=
+  never_stale_aliases sourceCfg source_good (fun _ => rfl) sourceAliasImpl source_alias_ok sem d0 pv0 ops
+
+/-- a fast path in `jacobian_T` guarded by the MASTER canary `ode` instead of `jacobian` -/
+def wrongGuardImpl : Alias → AliasImpl
+  | .jacobianT => .direct .ode
+  | .odeT => .direct .ode
+  | _ => .method
+
+/-- the history an integrator produces: jacobian compiled, the model modified, the ode evaluated once, then the Jacobian
+requested through `jacobian_T` before `jacobian()` itself was called -/
+def integratorOps : List AOp :=
+  [.op (.evaluate .jacobian [3] 0), .op (.mutate (.addEvent deathEv)), .alias .odeT [3] 0, .alias .jacobianT [3] 0]
+
+/-- **`jacobian_T` short-cut behind the wrong canary.**  Although every mutator trips and every evaluator is watched,
+recompiling the ode resets the flag `ode` while `jacobian` is still tripped: `jacobian_T` then calls the closure compiled
+from definition version 0 while the model is at version 1 (the hypothesis `AliasOk` of `never_stale_aliases` cannot be
+dropped; `ode_T` behind its own flag `ode` is fine).  With the aliases as the source writes them the same history is fresh. -/
+theorem alias_wrong_guard_counterexample :
+    summary (arun Cfg.simulate wrongGuardImpl (cinit Cfg.simulate d1 [1]) integratorOps)
+      = [(0, 0, 3, 3), (1, 1, 3, 3), (0, 1, 3, 3)] ∧
+    summary (arun Cfg.simulate sourceAliasImpl (cinit Cfg.simulate d1 [1]) integratorOps)
+      = [(0, 0, 3, 3), (1, 1, 3, 3), (1, 1, 3, 3)] := by
+  constructor <;> decide
 
 /-! ### non-vacuity -/
 
